@@ -57,8 +57,9 @@ VARIABLES cfg,         \* [ver, fn] of the first incarnation
           healthyDur,  \* history: ... and a Flush succeeded since
           ev
 vars == <<cfg, disk, mem, alive, myver, hasfn, mustCor, mustTnt, healthyOk, healthyDur, ev>>
-FullView == <<cfg, disk, mem, alive, myver, hasfn, mustCor, mustTnt, healthyOk, healthyDur>>
-View == <<cfg, disk, mem, alive, myver, hasfn>>
+FullView == <<disk, mem, alive, myver, hasfn, mustCor, mustTnt, healthyOk, healthyDur>>
+(* cfg only fixes the first incarnation (myver, hasfn): it is not needed to tell states apart *)
+View == <<disk, mem, alive, myver, hasfn>>
 
 Modes == {"before", "after", "fail"}
 Empty == <<0, 0, 0>>
@@ -156,7 +157,9 @@ InitState(c) ==
   /\ alive = "up" /\ myver = c.ver /\ hasfn = c.fn
   /\ mustCor = FALSE /\ mustTnt = FALSE /\ healthyOk = FALSE /\ healthyDur = FALSE
 
-Cfgs == [ver : Versions, fn : BOOLEAN]
+(* every (version, function) pair is reachable through Restart from any first incarnation, so the *)
+(* exported transition system starts from two of them only                                         *)
+Cfgs == IF Scope = "lts" THEN {[ver |-> 0, fn |-> FALSE], [ver |-> 2, fn |-> TRUE]} ELSE [ver : Versions, fn : BOOLEAN]
 Init == /\ cfg \in Cfgs
         /\ InitState(cfg)
         /\ ev = [op |-> "reset", cfg |-> cfg]
@@ -180,14 +183,22 @@ UpdateStim(plans) == {[op |-> "Update", fnok |-> b, k |-> p.k, mode |-> p.mode] 
 RestartStim(vs, fns, fates, plans) ==
   {[op |-> "Restart", v |-> v, fn |-> b, fate |-> ft, k |-> p.k, mode |-> p.mode] : v \in vs, b \in fns, ft \in fates, p \in plans}
 
-Stimuli ==
+ReadOps == {"IsCorrupted", "IsTainted", "StoreVersion", "Check"}
+FullStimuli ==
   Op(TwoOps \cup OneOps, NoPlan) \cup UpdateStim(NoPlan)
   \cup Op(TwoOps, PlansUpTo(2)) \cup Op(OneOps, PlansUpTo(1)) \cup UpdateStim(PlansUpTo(2))
-  \cup (IF Scope = "lts"
-          THEN \* the exported transition system: plans on the constructor only with an update function and fate keep
-               RestartStim(Versions, BOOLEAN, {"keep", "lose"}, NoPlan)
-               \cup RestartStim(Versions, {TRUE}, {"keep"}, [k : 1..2, mode : Modes])
-          ELSE RestartStim(Versions, BOOLEAN, {"keep", "lose"}, NoPlan \cup PlansUpTo(2)))
+  \cup RestartStim(Versions, BOOLEAN, {"keep", "lose"}, NoPlan \cup PlansUpTo(2))
+(* the exported transition system is thinned out where stimuli are equivalent by construction: a     *)
+(* process that stops before or after a READ leaves the same state (only "after" is kept); a tracker *)
+(* has an update function iff it is opened with version 2 (so both "nofunc" and the migration occur, *)
+(* and hasfn is a function of myver); plans on the constructor only with fate keep                   *)
+LtsStimuli ==
+  Op(TwoOps \cup OneOps, NoPlan) \cup UpdateStim(NoPlan)
+  \cup Op(TwoOps, PlansUpTo(2)) \cup Op(OneOps \ ReadOps, PlansUpTo(1)) \cup UpdateStim(PlansUpTo(2))
+  \cup Op(ReadOps, [k : {1}, mode : {"after", "fail"}])
+  \cup UNION {RestartStim({v}, {v = 2}, {"keep", "lose"}, NoPlan) : v \in Versions}
+  \cup UNION {RestartStim({v}, {v = 2}, {"keep"}, PlansUpTo(2)) : v \in Versions \ {0}}
+Stimuli == IF Scope = "lts" THEN LtsStimuli ELSE FullStimuli
 
 (* a dead object can only be restarted; UpdateStoreVersion on a tracker opened with StoreVersionNone *)
 (* ("load an existing store without a version check") is outside the contract                       *)
